@@ -1,5 +1,6 @@
 import Restic.Proofs.C10_Plan
 import Restic.Proofs.C10_Exact
+import Restic.Proofs.C10_Stats
 import Restic.Props.C09
 /-!
 # C10 — A full prune leaves no waste and reports accurate statistics
@@ -67,14 +68,14 @@ theorem full_plan_no_waste (o : Opts) (used : List BlobH) (idx : List PB) (packs
     the duplicate pass switched to "used": `unusedBlobs` of every pack counts exactly its entries
     that are neither the only entry of a used blob nor a selected duplicate; every used blob has
     exactly one entry counted as used; unused blobs have none. -/
-theorem select_exactly_one (used : List BlobH) (idx : List PB) (st : Stats) (pi : PackInfoResult)
-    (h : packInfoFromIndex used idx st = .ok pi) :
+theorem select_exactly_one (used : List BlobH) (idx : List PB) (pi : PackInfoResult)
+    (h : packInfoFromIndex used idx {} = .ok pi) :
     pi.marks.length = idx.length ∧
     (∀ p, ((pi.ip p).getD {}).unusedBlobs = (idx.zip pi.marks).countP (unmarkedP (countPass used idx).f p)) ∧
     (∀ b ∈ used, (idx.zip pi.marks).countP (usedMark (countPass used idx).f b) = 1) ∧
     (∀ b, b ∉ used → (idx.zip pi.marks).countP (usedMark (countPass used idx).f b) = 0) :=
-  let a := packInfo_account h
-  ⟨a.len, a.unused, a.one, a.none⟩
+  let a := packInfo_account (st := {}) h rfl
+  ⟨a.len, a.unused, a.one, a.zero⟩
 
 /-- **full_prune_exact** (index part of C10, at plan level): under full-prune options (every
     candidate repacked, no `--repack-cacheable-only`), for every index order, listing and
@@ -115,7 +116,21 @@ theorem unindexed_removed (o : Opts) (choice : ID → Bool) (used : List BlobH) 
   simp only [Bool.and_eq_true, List.all_eq_true, Bool.not_eq_true', List.any_eq_false, decide_eq_true_eq] at this
   exact fun p hp pb hpb => this.1.1 p hp pb hpb
 
-/-! ## Statistics: the totals -/
+/-! ## Statistics -/
+
+/-- **stats_blobs_exact** (part of `stats_exact`): for every option set and oracle, the reported
+    number of used blobs is the number of blobs reachable from snapshots, the reported number of
+    unused blobs is the number of index entries of unreachable blobs, the total is the number of
+    index entries, and duplicates are the rest (each used blob counted once, its further copies as
+    duplicates) — through counter saturation and for every index order. -/
+theorem stats_blobs_exact (o : Opts) (choice : ID → Bool) (used : List BlobH) (idx : List PB)
+    (packs : List (ID × Nat)) (pl : Plan) (hnd : used.Nodup) (h : planPrune o choice used idx packs = .ok pl) :
+    pl.stats.bUsed = used.length ∧
+    pl.stats.bUnused = idx.countP (fun x => !(used.contains x.e.blob)) ∧
+    pl.stats.bTotal = idx.length ∧
+    pl.stats.bUsed + pl.stats.bDup + pl.stats.bUnused = idx.length :=
+  Restic.Proofs.C10Stats.plan_blob_stats hnd h
+
 
 /-- the derived statistics fields are exactly the sums / differences the code assigns -/
 theorem totals_identities (st : Stats) :
